@@ -117,8 +117,18 @@ func build(race bool) error {
 		}
 	}
 	inst := filepath.Join(binDir(), "instrument")
-	if _, err := os.Stat(inst); err != nil {
-		if err := run(simDir(), "go1.26.8", "build", "-o", inst, "./cmd/instrument"); err != nil {
+	stale := true
+	if bi, err := os.Stat(inst); err == nil {
+		if si, err := os.Stat(filepath.Join(simDir(), "cmd/instrument/main.go")); err == nil && !si.ModTime().After(bi.ModTime()) {
+			stale = false
+		}
+	}
+	if stale {
+		tmpInst := filepath.Join(binDir(), fmt.Sprintf("instrument.%d.tmp", os.Getpid()))
+		if err := run(simDir(), "go1.26.8", "build", "-o", tmpInst, "./cmd/instrument"); err != nil {
+			return err
+		}
+		if err := os.Rename(tmpInst, inst); err != nil {
 			return err
 		}
 	}
